@@ -77,6 +77,16 @@ def make_cases(rng, _n):
         sexp = adt("A", [], ["(int 1)"] * n)
         for m in range(1, 6):
             add(decls, "T", value, sexp, "T::A(%s)" % ", ".join("1" for _ in range(m)), "variant-arity", m == n)
+        # no elements at all against a variant / tuple struct that has fields: a bare path or `path()` names a unit item only
+        add(decls, "T", value, sexp, "T::A", "bare-path-on-fielded-variant", False)
+        add(decls, "T", value, sexp, "T::A()", "empty-parens-on-fielded-variant", False)
+        add(decls, "T", "T::B", adt("B", [], []), "T::B", "unit-variant", True)
+        sdecls = "#[derive(Debug)] pub struct Pair(%s);" % ", ".join("pub i32" for _ in range(n))
+        add(sdecls, "Pair", "Pair(%s)" % ", ".join("1" for _ in range(n)), adt("Pair", [], ["(int 1)"] * n), "Pair()", "empty-parens-on-tuple-struct", False)
+    vdecls = "#[derive(Debug)] pub enum E { V { w: i32, h: i32 }, U }"
+    add(vdecls, "E", "E::V { w: 1, h: 1 }", adt("V", ["w", "h"], ["(int 1)", "(int 1)"]), "E::V", "bare-path-on-struct-variant", False)
+    add(vdecls, "E", "E::V { w: 1, h: 1 }", adt("V", ["w", "h"], ["(int 1)", "(int 1)"]), "E::V()", "empty-parens-on-struct-variant", False)
+    add(vdecls, "E", "E::U", adt("U", [], []), "E::U", "unit-variant", True)
     return cases
 
 
@@ -98,7 +108,7 @@ def run(ck):
                 found = True
             ck.report(key, ("a pattern that must be rejected at compile time is accepted" if accepted else "a well-formed pattern is rejected") + " (%s)" % c.kind,
                       dict(t3.describe(c), expected="accept" if c.expect_accept else "reject", rustc=c.got[2][:300]))
-        elif model_accepts != c.expect_accept and c.kind not in ("wrong-type", "wrong-variant-name", "wildcard-without-rest"):
+        elif model_accepts != c.expect_accept and c.kind not in ("wrong-type", "wrong-variant-name", "wildcard-without-rest") and not c.kind.startswith(("bare-path-on", "empty-parens-on")):
             ck.report("model:%s" % c.kind, "the model's destructuring judgment disagrees with the rule the check expects", dict(t3.describe(c), model=c.expect[0]), no_input=True)
     ck.corr_record("T3 accept/reject matrix (every subset of the fields of 5 struct / struct-variant shapes x with/without `..`, unknown fields, wrong type / variant names, wildcard structs, tuple and variant arities 0-5): rustc's verdict vs the rule and vs the model's destructuring judgment",
                    len(cases), len(cases), 0, dist,
